@@ -74,6 +74,18 @@ FIXED = [
      "dense time: 's_prev a' / 's_next a' evaluated as 'a' offline and raised KeyError online instead of RTAMTException"),
     ('F12b', ['C17'], 'fix: pastify() of a dense-time specification silently removed next',
      "dense online with pastify(): 'next a' / 's_next a' were removed by the pastifier and monitored as 'a' instead of being rejected"),
+    ('F15a', ['C20'], 'fix: explanation of a variable that occurs several times',
+     'explain(): a variable occurring twice kept only the intervals of its last occurrence ((3 >= a) and (a !== -1.5) reported nothing)'),
+    ('F15b', ['C20'], 'fix: explanations of rise/fall omitted the previous sample',
+     'explain(): rise/fall reported only sample t although they depend on t-1 as well'),
+    ('F15c', ['C20'], 'fix: explanation of a violated once[a,b] pointed into the future',
+     'explain(): a violated once[a,b] was explained with the window of eventually[a,b] (and only its first interval)'),
+    ('F15d', ['C20'], 'fix: explanations treated the antecedent of an implication',
+     'explain(): the antecedent of an implication was explained with the polarity of the implication itself'),
+    ('F15e', ['C20'], 'fix: explanations of rise/fall explained the operand with one polarity only',
+     'explain(): rise/fall explained their operand with one polarity only (fall(always[1,1](a >= 2)) reported nothing)'),
+    ('F15f', ['C20'], 'fix: explanations of universally quantified cases looked at the first interval only',
+     'explain(): satisfied always/historically and violated eventually/once propagated only the first of several disjoint intervals'),
 ]
 
 OPEN = [
